@@ -39,11 +39,18 @@ ReadErr == /\ Reading
            /\ \E e \in {"Other", "UnexpectedEof"} :
                  st' = SReadErr(SV, st, e) /\ hardErr' = e
            /\ UNCHANGED <<delivered, ints>>
+\* a reader that claims bytes it never wrote: the loop hashes its own buffer content
+ReadLie == /\ Reading /\ st.bufKnown
+           /\ \E n \in 1..BufLen :
+                 /\ Len(delivered) + n <= MaxData
+                 /\ st' = SReadLie(SV, st, n)
+                 /\ delivered' = delivered \o BufPrefix(st.buf, n)
+           /\ UNCHANGED <<ints, hardErr>>
 ReadEof == /\ Reading /\ st' = SReadEof(SV, st) /\ UNCHANGED <<delivered, ints, hardErr>>
 ReadMisreport == /\ Reading /\ st' = SReadMisreport(SV, st) /\ hardErr' = "misreport"
                  /\ UNCHANGED <<delivered, ints>>
 
-Next == ReadOk \/ ReadInterrupted \/ ReadErr \/ ReadEof \/ ReadMisreport
+Next == ReadOk \/ ReadLie \/ ReadInterrupted \/ ReadErr \/ ReadEof \/ ReadMisreport
 Spec == Init /\ [][Next]_vars
 
 \* Safety
@@ -53,6 +60,8 @@ OutcomeCorrect ==
           [] hardErr = "misreport" -> st.outcome = [kind |-> "Panic"]
           [] OTHER                 -> st.outcome = [kind |-> "IOError", e |-> hardErr]
 StateMatchesDelivered == st.sg = AbsState(SV, delivered)
+\* the buffer never holds anything but zeros and bytes the reader delivered
+BufferIsZerosOrDelivered == \A i \in 1..Len(st.buf) : st.buf[i] \in Alphabet \cup {0}
 
 \* Liveness: the environment eventually stops delivering/interrupting (the
 \* bounds above) and the loop keeps calling read (weak fairness on the
